@@ -30,25 +30,30 @@ LineOffs(q, m) == {0} \cup {m - v : v \in Around(T(q.lo, m))}
 LineMovesQ(q) == {R(g, d, B, B, "c") : g \in LineGaps(q, B), d \in LineOffs(q, B)}
                  \cup {R(T(q.cm, B) - 1, 0, B, B, "s"), R(0, 0, B, B, "e"), R(1, 0, 0, B, "c")}
 \* mixed sizes: thresholds of both the smaller and the larger glyph; offsets both ways; nested boxes
-LineMovesT(q) == LineMovesQ(q)
-                 \cup {R(g, d, 12, 16, "c") : g \in Around(T(q.cm, 12)) \cup Around(T(q.wm, 16)), d \in {0, 0 - 4, 0 - 8} \cup {B - v : v \in Around(T(q.lo, B))}}
+LineMovesT(q) == {R(g, d, B, B, "c") : g \in {T(q.cm, B) - 1, T(q.cm, B), T(q.wm, B), T(q.wm, B) + 1}, d \in {0, B - T(q.lo, B), B - T(q.lo, B) + 1}}
+                 \cup {R(g, d, 12, 16, "c") : g \in Around(T(q.cm, 12)) \cup {T(q.wm, 16), T(q.wm, 16) + 1},
+                                              d \in {0, 0 - 4, 0 - 8} \cup {B - v : v \in Around(T(q.lo, B))}}
                  \cup {R(g, 0 - d, B, B, "c") : g \in {T(q.cm, B) - 1, T(q.wm, B) + 1}, d \in LineOffs(q, B)}
                  \cup {R(0 - 20, 0, B, B, "c"), R(0 - 8, 0, B, B, "c"), R(0, 0, B, B, "s")}
+\* four glyphs in a row: the thresholds only
+LineMoves4(q) == {R(g, d, B, B, "c") : g \in {T(q.cm, B) - 1, T(q.cm, B), T(q.wm, B) + 1}, d \in {0, B - T(q.lo, B), B - T(q.lo, B) + 1}}
 ParamsLineQ == {PR(<<1, 2>>, cm, wm, <<1, 2>>, <<1, 2>>, dv, FALSE) :
                   cm \in {<<2, 1>>, <<1, 2>>}, wm \in {<<1, 8>>, <<1, 2>>, <<0, 1>>}, dv \in BOOLEAN}
 ParamsLineQH == {q \in ParamsLineQ : ~q.dv}
-ParamsLineQV == {q \in ParamsLineQ : q.dv}
+ParamsLineQV == {q \in ParamsLineQ : q.dv /\ q.cm = <<2, 1>>}
 ParamsLineM == {PR(lo, cm, wm, <<1, 2>>, <<1, 2>>, dv, FALSE) :
                   lo \in {<<1, 2>>, <<1, 4>>}, cm \in {<<2, 1>>, <<1, 2>>}, wm \in {<<1, 8>>, <<1, 2>>, <<0, 1>>}, dv \in BOOLEAN}
-ParamsLineT == {PR(lo, cm, wm, <<1, 2>>, bf, dv, FALSE) :
-                  lo \in {<<1, 2>>, <<1, 4>>, <<3, 4>>}, cm \in {<<2, 1>>, <<1, 2>>, <<1, 1>>},
-                  wm \in {<<1, 8>>, <<1, 2>>, <<0, 1>>, <<1, 10>>}, dv \in BOOLEAN, bf \in {<<1, 2>>, None}}
+ParamsLineT == {PR(lo, cm, wm, <<1, 2>>, <<1, 2>>, dv, FALSE) :
+                  lo \in {<<1, 4>>, <<3, 4>>}, cm \in {<<2, 1>>, <<1, 2>>, <<1, 1>>},
+                  wm \in {<<1, 8>>, <<1, 2>>, <<0, 1>>, <<1, 10>>}, dv \in BOOLEAN}
+ParamsLine4 == {PR(<<1, 2>>, cm, <<1, 8>>, <<1, 2>>, <<1, 2>>, dv, FALSE) : cm \in {<<2, 1>>, <<1, 2>>}, dv \in BOOLEAN}
 \* the library defaults, and every parameter at its extremes (one at a time)
 Default(dv) == PR(<<1, 2>>, <<2, 1>>, <<1, 10>>, <<1, 2>>, <<1, 2>>, dv, FALSE)
 ParamsExtreme ==
   LET d == Default(FALSE) IN
   {d, Default(TRUE), [d EXCEPT !.bf = None], [Default(TRUE) EXCEPT !.bf = None]}
-  \cup {[d EXCEPT !.lo = x, !.dv = v] : x \in {<<0, 1>>, <<0 - 1, 1>>, <<1, 1>>, <<2, 1>>}, v \in BOOLEAN}
+  \cup {[d EXCEPT !.lo = x] : x \in {<<0, 1>>, <<0 - 1, 1>>, <<1, 1>>, <<2, 1>>}}
+  \cup {[d EXCEPT !.lo = x, !.dv = TRUE] : x \in {<<0 - 1, 1>>, <<1, 1>>}}
   \cup {[d EXCEPT !.cm = x] : x \in {<<0, 1>>, <<0 - 1, 1>>, <<1000, 1>>}}
   \cup {[d EXCEPT !.wm = x] : x \in {<<0, 1>>, <<0 - 1, 1>>, <<1000, 1>>}}
   \cup {[d EXCEPT !.lm = x, !.bf = f] : x \in {<<0, 1>>, <<0 - 1, 1>>, <<1000, 1>>}, f \in {<<1, 2>>, None}}
@@ -85,6 +90,7 @@ ColMovesT(q) == {D(g, 0, w, B, "c") : g \in {4, 8, 12}, w \in {B, 2 * B}}
                 \cup {C(g, d, w, B, "c") : g \in {4, 8, 16}, d \in {0, 0 - 4, 4}, w \in {B, 2 * B}}
 ParamsCols == {PR(<<1, 2>>, <<2, 1>>, <<1, 8>>, <<1, 4>>, bf, FALSE, FALSE) :
                  bf \in {<<0 - 1, 1>>, <<0 - 1, 2>>, <<0, 1>>, <<1, 2>>, <<1, 1>>, None}}
+ParamsCols3 == {q \in ParamsCols : q.bf \in {<<0, 1>>, <<1, 2>>, None}}
 ParamsColsV == {PR(<<1, 2>>, <<2, 1>>, <<1, 8>>, <<1, 4>>, bf, TRUE, FALSE) : bf \in {<<0 - 1, 2>>, <<1, 2>>, None}}
 
 \* ------------------------------------------------------------------ figures (all_texts) on a small space
